@@ -15,24 +15,32 @@
 //   with 3 priority patterns when the heap holds <= full_size keys (incl. the empty heap), every list of length
 //   <= 1 in every larger state.  The doc says "Builds a heap from ..." and the rvalue overload explicitly
 //   clears a non-empty heap first, DAryHeap::build_heap replaces the contents: the model replaces the contents.
-// Oracles after every transition: size(), empty(), contains(k) for k = 0..7 (7 > any handles_ size), top() has
+// Oracles after every transition: size(), empty(), contains(k) for k = 0..nk+1 (beyond any handles_ size), top() has
 //   minimal priority and is contained, sanity_check(), extract_top() value, own scan of heap_/handles_
 //   (permutation of the model set, handles_[heap_[i]] == i, every other handle not_present, heap order),
 //   comparator never called with a non-key.  In every new state: drain of a copy (extract_top / top+pop) gives
 //   exactly the contained keys in non-decreasing priority, contains() false for all afterwards, original untouched.
 // Canonical state = heap_ + handles_ + priority table.
+// Second family per instantiation ("<...>/deep"): 2*Arity+2 keys — the smallest heap in which remove() must sift the
+// moved last element UP (no closure universe reaches that for arity >= 3) — seeded with 5 full heaps (priority patterns
+// S0..S4, built on the fresh heap), every history of <= 2 ops of the same menu (build_heap: lists of length <= 1) from
+// every seed, same oracles.
 #pragma once
 #include <tlx/container/d_ary_addressable_int_heap.hpp>
 
 #include <algorithm>
 #include <list>
 
+#include <unordered_map>
+
 #include "c13_common.hpp"
 
 namespace c13 {
 
-enum { A_NKMAX = 6, A_NP = 3, A_NPRESETS = 3 };
-static const int kAddrPresets[A_NPRESETS][A_NKMAX] = {{0, 1, 2, 0, 1, 2}, {2, 1, 0, 2, 1, 0}, {1, 1, 1, 1, 1, 1}};
+enum { A_NKMAX = 20, A_NP = 3, A_NPRESETS = 3, A_NSEEDS = 5 };
+// table presets for update_all: P0 = k%3, P1 = 2-k%3, P2 = all 1
+inline int addr_preset(unsigned p, int k) { return p == 0 ? k % 3 : p == 1 ? 2 - k % 3 : 1; }
+inline char key_char(unsigned long long t) { return (char)(t < 10 ? '0' + t : t < 36 ? 'a' + (t - 10) : '?'); }
 
 template <class KeyT>
 struct KeyName;
@@ -69,13 +77,15 @@ struct AddrSys {
 
     int nk;
     size_t full_size;
-    AddrSys(int nk_, size_t fs) : nk(nk_), full_size(fs) {}
+    bool deep;  // "deep" family: 2*Arity+2 keys, BFS of bounded depth from seeded full heaps (see add_addr)
+    AddrSys(int nk_, size_t fs, bool deep_ = false) : nk(nk_), full_size(fs), deep(deep_) {}
 
     struct State {
         Ctx ctx;
-        int table[A_NKMAX] = {0, 0, 0, 0, 0, 0};
+        int table[A_NKMAX] = {};
         unsigned present = 0;
         size_t n = 0;
+        size_t steps = 0;
         std::unique_ptr<Heap> heap;
         State() {
             g_ctx = &ctx;
@@ -87,13 +97,32 @@ struct AddrSys {
         }
     };
 
-    std::string name() { return vh::fmt("DAryAddressableIntHeap<%s,a%u>", KeyName<KeyT>::nm(), Arity); }
+    std::string name_;
+    const std::string& name() {
+        if (name_.empty()) name_ = vh::fmt("DAryAddressableIntHeap<%s,a%u>%s", KeyName<KeyT>::nm(), Arity, deep ? "/deep" : "");
+        return name_;
+    }
     std::unique_ptr<State> fresh() { return std::unique_ptr<State>(new State()); }
 
     enum Kind {
         PUSH_COPY = 1, PUSH_MOVE, UPDATE_ABSENT, POP, EXTRACT, REMOVE, UPDATE, REPRIO_UPDATE, CLEAR, UPDATE_ALL, REPRIO_UPDATE_ALL,
-        RETABLE_UPDATE_ALL, BUILD_VEC, BUILD_ITER, BUILD_MOVE
+        RETABLE_UPDATE_ALL, BUILD_VEC, BUILD_ITER, BUILD_MOVE, SEED
     };
+
+    // seed heaps of the deep family: build_heap(const vector&) of the keys 0..nk-1 (in this order) on the fresh heap,
+    // with priority pattern p.  Position i of a heap-ordered input stays key i, so pattern 2 places a low-priority
+    // last leaf (child of slot 2) next to a high-priority subtree below slot 1: remove(child of slot 1) must sift UP.
+    int seed_prio(unsigned p, int i) const {
+        int a = (int)Arity;
+        int depth = i == 0 ? 0 : i <= a ? 1 : 2;
+        switch (p) {
+        case 0: return 1;
+        case 1: return depth;
+        case 2: return i == 0 || i == 2 ? 0 : i <= a ? 1 : i <= 2 * a ? 2 : 0;
+        case 3: return 2 - (3 * i) / nk;
+        default: return i % 3;
+        }
+    }
     static uint32_t enc(int k, unsigned arg = 0) { return ((uint32_t)k << 12) | arg; }
 
     // priority of the j-th element of a build list of length L under pattern p
@@ -103,13 +132,19 @@ struct AddrSys {
     }
     std::string build_arg(unsigned a) {
         unsigned p = a / 512;
-        std::vector<int> l = decode_list(a % 512, nk);
+        const std::vector<int>& l = decode_list(a % 512, nk);
         std::string s = "[";
         for (size_t j = 0; j < l.size(); ++j) s += vh::fmt("%s%d:=%d", j ? " " : "", l[j], pat_prio(p, j, l.size()));
         return s + "]";
     }
 
+    std::unordered_map<uint32_t, std::string> name_cache_;
     std::string op_name(uint32_t op) {
+        auto it = name_cache_.find(op);
+        if (it != name_cache_.end()) return it->second;
+        return name_cache_[op] = op_name_uncached(op);
+    }
+    std::string op_name_uncached(uint32_t op) {
         unsigned k = op >> 12, a = op & 4095;
         const char* C = "DAryAddressableIntHeap.";
         switch (k) {
@@ -128,6 +163,7 @@ struct AddrSys {
         case BUILD_VEC: return C + ("build_heap(const vector& " + build_arg(a) + ")");
         case BUILD_ITER: return C + ("build_heap(first,last " + build_arg(a) + ")");
         case BUILD_MOVE: return C + ("build_heap(vector&& " + build_arg(a) + ")");
+        case SEED: return vh::fmt("%sbuild_heap(const vector& keys 0..%d with priority pattern S%u on the fresh heap)", C, nk - 1, a);
         }
         return "DAryAddressableIntHeap.?";
     }
@@ -143,6 +179,7 @@ struct AddrSys {
         return true;
     }
 
+    std::vector<uint32_t> build_menu_[2];
     std::vector<uint32_t> ops(const State& s) {
         std::vector<uint32_t> r;
         for (int k = 0; k < nk; ++k)
@@ -172,18 +209,23 @@ struct AddrSys {
                     if (v != s.table[k]) r.push_back(enc(REPRIO_UPDATE_ALL, k * 4 + v));
         if (s.n >= 2)
             for (int p = 0; p < A_NPRESETS; ++p) r.push_back(enc(RETABLE_UPDATE_ALL, p));
-        unsigned nl = num_lists(nk, s.n <= full_size ? 3 : 1);
-        for (unsigned c = 0; c < nl; ++c) {
-            std::vector<int> l = decode_list(c, nk);
-            if (!distinct(l)) continue;
-            // patterns: lists of length <= 1: one; length 2: p0 (0,1) and p1 (1,0); length 3: all three
-            unsigned np = l.size() <= 1 ? 1 : l.size() == 2 ? 2 : 3;
-            for (unsigned p = 0; p < np; ++p) {
-                r.push_back(enc(BUILD_VEC, p * 512 + c));
-                r.push_back(enc(BUILD_ITER, p * 512 + c));
-                r.push_back(enc(BUILD_MOVE, p * 512 + c));
+        bool full = !deep && s.n <= full_size;
+        std::vector<uint32_t>& menu = build_menu_[full ? 1 : 0];
+        if (menu.empty()) {
+            unsigned nl = num_lists(nk, full ? 3 : 1);
+            for (unsigned c = 0; c < nl; ++c) {
+                const std::vector<int>& l = decode_list(c, nk);
+                if (!distinct(l)) continue;
+                // patterns: lists of length <= 1: one; length 2: p0 (0,1) and p1 (1,0); length 3: all three
+                unsigned np = l.size() <= 1 ? 1 : l.size() == 2 ? 2 : 3;
+                for (unsigned p = 0; p < np; ++p) {
+                    menu.push_back(enc(BUILD_VEC, p * 512 + c));
+                    menu.push_back(enc(BUILD_ITER, p * 512 + c));
+                    menu.push_back(enc(BUILD_MOVE, p * 512 + c));
+                }
             }
         }
+        r.insert(r.end(), menu.begin(), menu.end());
         return r;
     }
 
@@ -223,22 +265,33 @@ struct AddrSys {
 
     void check_queries(State& s) {
         Heap& h = *s.heap;
-        if (h.size() != s.n) vh::fail_here("size", vh::fmt("size()=%zu, model %s", h.size(), model_str(s).c_str()));
-        if (h.empty() != (s.n == 0)) vh::fail_here("empty", vh::fmt("empty()=%d, model %s", (int)h.empty(), model_str(s).c_str()));
-        for (int k = 0; k < 8; ++k) {
-            bool want = k < A_NKMAX && has(s, k);
+        if (h.size() != s.n) {
+            vh::fail_here("size", vh::fmt("size()=%zu, model %s", h.size(), model_str(s).c_str()));
+            return;
+        }
+        if (h.empty() != (s.n == 0)) {
+            vh::fail_here("empty", vh::fmt("empty()=%d, model %s", (int)h.empty(), model_str(s).c_str()));
+            return;
+        }
+        for (int k = 0; k < nk + 2; ++k) {  // nk, nk+1: beyond any handles_ size
+            bool want = k < nk && has(s, k);
             if (h.contains((KeyT)k) != want) {
                 vh::fail_here("contains", vh::fmt("contains(%d)=%d, model %s; %s", k, (int)!want, model_str(s).c_str(), impl_str(s).c_str()));
-                break;
+                return;
             }
         }
         int mp = 0;
         if (min_prio(s, &mp) && !h.empty()) {
             KeyT t = h.top();
-            if (t >= A_NKMAX || !has(s, (int)t) || s.table[t] != mp)
+            if (t >= A_NKMAX || !has(s, (int)t) || s.table[t] != mp) {
                 vh::fail_here("top", vh::fmt("top()=%llu is not a minimum-priority key of %s; %s", (unsigned long long)t, model_str(s).c_str(), impl_str(s).c_str()));
+                return;
+            }
         }
-        if (!h.sanity_check()) vh::fail_here("sanity_check", vh::fmt("sanity_check() false, model %s; %s", model_str(s).c_str(), impl_str(s).c_str()));
+        if (!h.sanity_check()) {
+            vh::fail_here("sanity_check", vh::fmt("sanity_check() false, model %s; %s", model_str(s).c_str(), impl_str(s).c_str()));
+            return;
+        }
         // structure (private members)
         unsigned seen = 0;
         bool perm = h.heap_.size() == s.n;
@@ -247,23 +300,32 @@ struct AddrSys {
             else seen |= 1u << t;
         }
         if (seen != s.present) perm = false;
-        if (!perm) vh::fail_here("contents", vh::fmt("heap_ is not a permutation of the model %s; %s", model_str(s).c_str(), impl_str(s).c_str()));
+        if (!perm) {
+            vh::fail_here("contents", vh::fmt("heap_ is not a permutation of the model %s; %s", model_str(s).c_str(), impl_str(s).c_str()));
+            return;
+        }
         else {
             bool hok = true;
             for (size_t i = 0; i < h.heap_.size(); ++i)
                 if (h.heap_[i] >= h.handles_.size() || h.handles_[h.heap_[i]] != (KeyT)i) hok = false;
             for (size_t k = 0; k < h.handles_.size(); ++k)
                 if (!(k < A_NKMAX && has(s, (int)k)) && h.handles_[k] != (KeyT)-1) hok = false;
-            if (!hok) vh::fail_here("handles", vh::fmt("handles_ inconsistent with heap_, model %s; %s", model_str(s).c_str(), impl_str(s).c_str()));
+            if (!hok) {
+                vh::fail_here("handles", vh::fmt("handles_ inconsistent with heap_, model %s; %s", model_str(s).c_str(), impl_str(s).c_str()));
+                return;
+            }
             for (size_t i = 1; i < h.heap_.size(); ++i) {
                 size_t p = (i - 1) / Arity;
                 if (s.table[h.heap_[i]] < s.table[h.heap_[p]]) {
                     vh::fail_here("heap-order", vh::fmt("slot %zu precedes its parent slot %zu, model %s; %s", i, p, model_str(s).c_str(), impl_str(s).c_str()));
-                    break;
+                    return;
                 }
             }
         }
-        if (s.ctx.misuse) vh::fail_here("comparator-argument", s.ctx.first_misuse);
+        if (s.ctx.misuse) {
+            vh::fail_here("comparator-argument", s.ctx.first_misuse);
+            return;
+        }
     }
 
     template <class Container>
@@ -341,11 +403,11 @@ struct AddrSys {
             break;
         case RETABLE_UPDATE_ALL:
             for (int i = 0; i < A_NKMAX; ++i)
-                if (has(s, i)) s.table[i] = kAddrPresets[a][i];
+                if (has(s, i)) s.table[i] = addr_preset(a, i);
             h.update_all();
             break;
         case BUILD_VEC: {
-            std::vector<int> l = decode_list(a % 512, nk);
+            const std::vector<int>& l = decode_list(a % 512, nk);
             table_for_build(s, l, a / 512);
             std::vector<KeyT> keys;
             fill(keys, l);
@@ -357,7 +419,7 @@ struct AddrSys {
             break;
         }
         case BUILD_ITER: {
-            std::vector<int> l = decode_list(a % 512, nk);
+            const std::vector<int>& l = decode_list(a % 512, nk);
             table_for_build(s, l, a / 512);
             std::list<KeyT> keys;
             fill(keys, l);
@@ -366,7 +428,7 @@ struct AddrSys {
             break;
         }
         case BUILD_MOVE: {
-            std::vector<int> l = decode_list(a % 512, nk);
+            const std::vector<int>& l = decode_list(a % 512, nk);
             table_for_build(s, l, a / 512);
             std::vector<KeyT> keys;
             fill(keys, l);
@@ -374,8 +436,19 @@ struct AddrSys {
             model_build(s, l, a / 512);
             break;
         }
+        case SEED: {
+            std::vector<KeyT> keys;
+            for (int i = 0; i < nk; ++i) {
+                s.table[i] = seed_prio(a, i);
+                keys.push_back((KeyT)i);
+            }
+            h.build_heap(keys);
+            s.present = (1u << nk) - 1;
+            s.n = (size_t)nk;
+            break;
         }
-        check_queries(s);
+        }
+        if (is_last_op_of_published_history(++s.steps)) check_queries(s);
     }
 
     void observe(State& s) {
@@ -404,7 +477,7 @@ struct AddrSys {
                 if (i && s.table[out[i]] < s.table[out[i - 1]]) ok = false;
             }
             if (seen != s.present) ok = false;
-            for (int k = 0; k < 8 && ok; ++k)
+            for (int k = 0; k < nk + 2 && ok; ++k)
                 if (m.contains((KeyT)k)) ok = false;
             if (!ok) {
                 std::string o;
@@ -419,9 +492,9 @@ struct AddrSys {
 
     std::string canon(const State& s) {
         std::string c;
-        for (KeyT t : s.heap->heap_) c += t < 10 ? (char)('0' + t) : '?';
+        for (KeyT t : s.heap->heap_) c += key_char(t);
         c += '|';
-        for (KeyT t : s.heap->handles_) c += t == (KeyT)-1 ? '.' : t < 10 ? (char)('0' + t) : '?';
+        for (KeyT t : s.heap->handles_) c += t == (KeyT)-1 ? '.' : key_char(t);
         c += '|';
         for (int k = 0; k < nk; ++k) c += (char)('0' + s.table[k]);
         return c;
@@ -429,10 +502,26 @@ struct AddrSys {
 };
 
 template <class KeyT, unsigned Arity>
-void add_addr(std::vector<Config>& out, bool thorough, bool in_quick, double cost) {
+void add_addr(std::vector<Config>& out, bool thorough, bool in_quick) {
     if (!thorough && !in_quick) return;
-    auto sys = std::make_shared<AddrSys<KeyT, Arity>>(thorough ? 6 : 5, 2);
+    // Universe: thorough: keys 0..5 for uint32_t keys and arity <= 4 (third tree level), keys 0..4 for arity >= 5 (two levels
+    // either way) and for the other key types; quick: keys 0..4.  build_heap from every list of length <= 3 in states
+    // holding <= 2 (quick: <= 1) keys.  cost = measured CPU seconds, used for shard balancing only.
+    bool big = thorough && Arity <= 4 && std::is_same<KeyT, uint32_t>::value;
+    int nk = (int)vh::args().opt_int("nk", big ? 6 : 5);
+    static const double cost6[5] = {0, 70, 177, 242, 318}, costq[5] = {0, 5.4, 10, 13, 16};
+    double cost = big ? cost6[Arity] : thorough ? 20 : costq[Arity <= 4 ? Arity : 4];
+    auto sys = std::make_shared<AddrSys<KeyT, Arity>>(nk, (size_t)vh::args().opt_int("afull", thorough ? 2 : 1));
     vhist::Options opt;  // closure
+    {
+        // deep family: 2*Arity+2 keys (the smallest heap in which remove() has to sift the moved last element UP: it comes
+        // from below slot 2 and lands below slot 1), seeded full heaps, every history of <= 2 ops from each seed.
+        auto dsys = std::make_shared<AddrSys<KeyT, Arity>>(2 * (int)Arity + 2, 0, true);
+        vhist::Options dopt;
+        dopt.max_depth = (int)vh::args().opt_int("adeep", 2);
+        for (unsigned p = 0; p < A_NSEEDS; ++p) dopt.seeds.push_back({AddrSys<KeyT, Arity>::enc(AddrSys<KeyT, Arity>::SEED, p)});
+        out.push_back(make_config(dsys, 0.5 + 0.4 * Arity, dopt));
+    }
     out.push_back(make_config(sys, cost, opt,
                               sys->name() + ": e.g. push(&& 3 with prio 2) update(absent 5 with prio 0) update(3 after prio:=0) remove(5) "
                                             "build_heap(vector&& [1:=0 4:=1 2:=2]) pop() update_all(after prio[4]:=0) clear() — closure over all "
